@@ -49,7 +49,9 @@ func fnDel(ctx *cmdContext, args map[string]any) (output respValue, err error) {
 }
 
 func fnUnlink(ctx *cmdContext, args map[string]any) (output respValue, err error) {
-	return doDelete(ctx, args, false)
+	// the key leaves the keyspace at once (DBSIZE, RANDOMKEY, WATCH, persistence); only the
+	// reclaiming of memory could be deferred, which has no meaning here
+	return doDelete(ctx, args, true)
 }
 
 func fnExists(ctx *cmdContext, args map[string]any) (output respValue, err error) {
